@@ -4,9 +4,9 @@ import . "vh/vhlib"
 
 func main() {
 	Main(map[string]CmdFn{
-		"gen": func(a []string) int { return RunGen(gens, a) },
-		"c13": c13,
+		"gen":   func(a []string) int { return RunGen(gens, a) },
+		"c13":   c13,
 		"c13hs": c13hs,
-		"c11": c11,
+		"c11":   c11,
 	})
 }
